@@ -2,7 +2,8 @@ SPECIFICATION SpecB
 CONSTANTS
   MaxN = 0
   MaxK = 9
-  EqRootShortcut = TRUE
+  EqRootShortcut = FALSE
+  EqSizeIgnoresProof = TRUE
   ZeroOldShortcut = TRUE
   Tear = FALSE
   MutLevel = 2
